@@ -92,8 +92,9 @@ func ulpError(r ref.Num, t *big.Float) (microUlps int64, q int) {
 }
 
 type c16Args struct {
-	Fn string
-	X  D
+	Fn   string
+	X    D
+	Mode uint8 `json:",omitempty"` // DefaultRoundingMode during the call (index into ref.Modes; 0 = nearest-even)
 }
 
 // exactExpected returns the exactly representable result the statement names, if the argument is one of those cases.
@@ -197,17 +198,19 @@ var c16 = Register("C16", "C16.explog", func(a c16Args) *Violation {
 	if fn.name == "Log1p" && n.Neg && ref.CmpNum(n, ref.Num{Class: ref.Finite, Neg: true, Coef: big.NewInt(1)}) <= 0 {
 		return nil // x <= -1: C15
 	}
-	if old := d128.DefaultRoundingMode; old != d128.ToNearestEven {
-		d128.DefaultRoundingMode = d128.ToNearestEven
-		defer func() { d128.DefaultRoundingMode = old }()
-	}
+	// the one-ulp bound is stated without a mode, so it is checked under every DefaultRoundingMode; the
+	// "exactly representable results are returned exactly" clause is stated for nearest-even only
+	mode := ref.Modes[int(a.Mode)%6]
+	old := d128.DefaultRoundingMode
+	d128.DefaultRoundingMode = mode
+	defer func() { d128.DefaultRoundingMode = old }()
 	got := fn.dec(a.X.Dec())
 	g := ref.Decode(got)
 	if g.Class == ref.NaN {
 		return violf("%s(%s) = NaN for an argument in the domain", fn.name, n)
 	}
 	// exactly representable results
-	if want, ok := exactExpected(fn.name, n); ok {
+	if want, ok := exactExpected(fn.name, n); ok && (mode == d128.ToNearestEven || n.IsZero()) {
 		if knownActive("F15-expm1-negzero") && fn.name == "Expm1" && n.IsZero() && n.Neg {
 			st.Exclude("F15-expm1-negzero")
 			return nil
@@ -226,18 +229,21 @@ var c16 = Register("C16", "C16.explog", func(a c16Args) *Violation {
 	}
 	// known-finding regions (active only while listed in KNOWN_FINDINGS.txt)
 	x := bigfl.FromDec(n.Neg, n.Coef, n.Exp)
-	if key := c16KnownRegion(fn.name, n); key != "" && knownActive(key) {
+	if key := c16KnownRegion(fn.name, n, mode); key != "" && knownActive(key) {
 		st.Exclude(key)
 		if key == "F16-expm1-negative-tiny" {
 			// envelope: the known failure is an absolute error of the order of the 57-digit working
 			// precision; anything grosser in this region is a different defect and still reported
 			t := fn.ref(x)
-			if g.Class != ref.Finite || (!g.IsZero() && !g.Neg) {
+			// (under a mode that rounds away from zero the internally computed zero becomes +1e-6176,
+			// so the sign is not constrained; the absolute-error bound below is what characterises F16)
+			if g.Class != ref.Finite {
 				return violf("Expm1(%s) = %s (inside the known region of F16, but not explained by it)", n, g)
 			}
 			diff := new(big.Float).SetPrec(bigfl.Prec).Sub(bigfl.FromDec(g.Neg, g.Coef, g.Exp), t)
-			if diff.Abs(diff).Cmp(bigfl.Pow10(-55)) > 0 {
-				return violf("Expm1(%s) = %s, true %s: absolute error above 1e-55 (inside the known region of F16, but grosser than it)", n, g, t.Text('e', 40))
+			allowed := new(big.Float).SetPrec(bigfl.Prec).Add(bigfl.Pow10(-55), bigfl.Pow10(quantumOfFloat(t))) // the known absolute error on top of the one ulp every mode may use
+			if diff.Abs(diff).Cmp(allowed) > 0 {
+				return violf("Expm1(%s) = %s, true %s: error above one ulp + 1e-55 (inside the known region of F16, but grosser than it)", n, g, t.Text('e', 40))
 			}
 		}
 		return nil
@@ -246,17 +252,25 @@ var c16 = Register("C16", "C16.explog", func(a c16Args) *Violation {
 	if !fn.log {
 		lim := map[string]int64{"Exp": 30000, "Expm1": 30000, "Exp2": 45000, "Exp10": 13000}[fn.name]
 		if ax := new(big.Float).Abs(x); ax.Cmp(new(big.Float).SetInt64(lim)) > 0 {
+			// under nearest-even the limit value itself is required; under the other modes the neighbour the
+			// mode selects is within one ulp and accepted as well
+			strict := mode == d128.ToNearestEven
+			maxFin := ref.Num{Class: ref.Finite, Coef: ref.Cmax, Exp: ref.Emax}
+			minSub := ref.Num{Class: ref.Finite, Coef: big.NewInt(1), Exp: ref.Emin}
 			switch {
 			case !n.Neg:
-				if g.Class != ref.Inf || g.Neg {
+				if !(g.Class == ref.Inf && !g.Neg) && !(!strict && ref.SameVal(g, maxFin)) {
 					return violf("%s(%s) = %s, want +Inf", fn.name, n, g)
 				}
 			case fn.name == "Expm1":
-				if !ref.SameVal(g, ref.Num{Class: ref.Finite, Neg: true, Coef: big.NewInt(1)}) {
+				m1 := ref.Num{Class: ref.Finite, Neg: true, Coef: big.NewInt(1)}
+				above := ref.Num{Class: ref.Finite, Neg: true, Coef: new(big.Int).Add(ref.Pow10(34), ref.One), Exp: -34}
+				below := ref.Num{Class: ref.Finite, Neg: true, Coef: new(big.Int).Sub(ref.Pow10(34), ref.One), Exp: -34}
+				if !ref.SameVal(g, m1) && !(!strict && (ref.SameVal(g, above) || ref.SameVal(g, below))) {
 					return violf("Expm1(%s) = %s, want -1", n, g)
 				}
 			default:
-				if !g.IsZero() || g.Neg {
+				if !(g.IsZero() && !g.Neg) && !(!strict && ref.SameVal(g, minSub)) {
 					return violf("%s(%s) = %s, want +0", fn.name, n, g)
 				}
 			}
@@ -283,9 +297,14 @@ var c16 = Register("C16", "C16.explog", func(a c16Args) *Violation {
 	if !g.IsZero() && t.Sign() != 0 && g.Neg != (t.Sign() < 0) {
 		return violf("%s(%s) = %s has the wrong sign (true result %s)", fn.name, n, g, t.Text('e', 40))
 	}
-	st.NoteMax("max_error_ulp", float64(mu)/1e6)
-	if mu > 500_000 {
-		st.Class("error>0.5ulp")
+	if mode == d128.ToNearestEven {
+		st.NoteMax("max_error_ulp_nearest_even", float64(mu)/1e6)
+		if mu > 500_000 {
+			st.Class("error>0.5ulp(nearest-even)")
+		}
+	} else {
+		st.NoteMax("max_error_ulp_other_modes", float64(mu)/1e6)
+		st.Class("mode-other-than-nearest-even")
 	}
 	lead := n.Exp + ref.DecLen(n.Coef)
 	switch {
@@ -302,17 +321,19 @@ var c16 = Register("C16", "C16.explog", func(a c16Args) *Violation {
 	default:
 		st.Class("|x|>=1e3")
 	}
-	st.NT(hashWords(hashString(a.Fn), a.X.Hi, a.X.Lo), func() any {
-		return map[string]any{"fn": a.Fn, "x": n.String(), "result": g.String(), "error_ulp": float64(mu) / 1e6}
+	st.NT(hashWords(hashString(a.Fn), a.X.Hi, a.X.Lo, uint64(a.Mode)), func() any {
+		return map[string]any{"fn": a.Fn, "x": n.String(), "mode": mode.String(), "result": g.String(), "error_ulp": float64(mu) / 1e6}
 	})
 	return nil
 })
 
 // c16KnownRegion names the known-finding region an argument falls into ("" if none).
-func c16KnownRegion(fn string, n ref.Num) string {
+func c16KnownRegion(fn string, n ref.Num, mode d128.RoundingMode) string {
 	lead := n.Exp + ref.DecLen(n.Coef) // |x| < 10^lead
 	switch {
-	case fn == "Expm1" && n.Neg && lead <= -21:
+	case fn == "Expm1" && n.Neg && (lead <= -21 || (mode != d128.ToNearestEven && lead <= -15)):
+		// the ~1e-56 absolute error exceeds one ulp below 1e-21 under nearest-even; under a directed mode it
+		// can push an already one-ulp-off truncation to 1.001 ulp up to |x| ~ 1e-16
 		return "F16-expm1-negative-tiny"
 	case fn == "Log1p" && lead <= -3600:
 		return "F18-log1p-tiny"
@@ -484,7 +505,11 @@ func c16Test(fn string, quick, thorough int) func(*testing.T) {
 			} else {
 				x = genExpArg(t, fn)
 			}
-			c16.Run(t, c16Args{Fn: fn, X: x})
+			a := c16Args{Fn: fn, X: x}
+			if ir(t, 0, 2, "otherMode") == 0 {
+				a.Mode = uint8(ir(t, 1, 5, "mode"))
+			}
+			c16.Run(t, a)
 		})
 	}
 }
